@@ -112,6 +112,12 @@ fn side_pairs(size: Size, c: &CornerRadii) -> [(&'static str, u64, u64, u64); 4]
     ]
 }
 
+/// `confine_radii()` changes some radius: the radii do not fit the rectangle (the complement of the
+/// guard `CornerRadii.Fits` of the Lean theorem `fill_in_stroke_partial_fitting`).
+fn radii_confined(r: &RoundedRectangle) -> bool {
+    radii_list(&r.confine_radii().corners) != radii_list(&r.corners)
+}
+
 fn radii_list(c: &CornerRadii) -> [u32; 8] {
     [
         c.top_left.width,
@@ -239,7 +245,7 @@ impl Module for M {
          20 unequal radius sets (incl. radii larger than the rectangle and overlapping opposite corners) x 12 sizes, even sizes with half-side radii, \
          seeded random sizes/radii <= 100 (quick 400, thorough 50 000); rrect.confine: 4 rectangle sizes x radius grid {0,1,3,6,12,60}^4 for two corners x 3 settings of the \
          other two, plus random radii up to u32::MAX; rrect.styled/areas: sizes 0..=7 squared x widths 0..=4 x 3 alignments x 4 colour options x 2 target boxes \
-         (unbounded, clipping) x 3 of 6 radius sets in rotation, plus seeded random larger cases. Non-trivial: width and height >= 1 (points), and a colour set (styled), \
+         (unbounded, clipping) x 3 of 6 radius sets in rotation, 6 tall-thin / wide-flat shapes with one elongated corner radius x 4 corners x 2 alignments (the known finding `:confined-radii`), plus seeded random larger cases. Non-trivial: width and height >= 1 (points), and a colour set (styled), \
          some radius pair not fitting (confine); distinct = distinct op text."
     }
 
@@ -394,6 +400,25 @@ impl Module for M {
                                 }
                             }
                             rot += 1;
+                        }
+                    }
+                }
+            }
+            // tall thin / wide flat shapes with ONE elongated corner radius (the other corners sharp): the family in
+            // which `confine` rescales the fill area's radii while the stroke area's stay (known finding
+            // `:confined-radii`, witness 3x20 with top-left radius (3,20), width 1 Inside, point (1,2))
+            for &(sw_, long, rs, rl, width) in
+                [(3u32, 20u32, 3u32, 20u32, 1u32), (4, 24, 4, 24, 1), (5, 32, 5, 32, 2), (5, 48, 6, 48, 2), (3, 32, 4, 32, 1), (6, 32, 12, 64, 2)].iter()
+            {
+                for corner in 0..4usize {
+                    for transposed in [false, true] {
+                        for a in 0..2u32 {
+                            let (w, h, rad) = if transposed { (long, sw_, (rl, rs)) } else { (sw_, long, (rs, rl)) };
+                            let mut r = [(0u32, 0u32); 4];
+                            r[corner] = rad;
+                            let g = format!("0 0 {} {} {}", w, h, radii_toks(&r));
+                            emit(format!("rrect.areas {} {} {}", g, width, a));
+                            emit(format!("rrect.styled {} 7 9 {} {} -8 -8 80 80", g, width, a));
                         }
                     }
                 }
@@ -667,7 +692,21 @@ impl Module for M {
                             }
                         }
                     }
-                    ctx.expect(escaped.is_none(), "C06:rrect-fill-area-not-inside-stroke-area", || {
+                    // KNOWN FINDING (class suffix `:confined-radii`): when `confine` rescales the radii of the fill
+                    // area or of the stroke area the corner ellipses of the two areas are no longer concentric and the
+                    // fill area may bulge out of the stroke area (Lean: `not_fill_in_stroke_all`). Where `confine`
+                    // changes neither (the guard of `fill_in_stroke_partial_fitting`) a failure contradicts the theorem
+                    // and keeps the unsuffixed class.
+                    let confined = radii_confined(&sa) || radii_confined(&fa);
+                    if confined {
+                        ctx.count("rrect:areas:confined-radii");
+                    }
+                    let cls = if confined {
+                        "C06:rrect-fill-area-not-inside-stroke-area:confined-radii"
+                    } else {
+                        "C06:rrect-fill-area-not-inside-stroke-area"
+                    };
+                    ctx.expect(escaped.is_none(), cls, || {
                         format!("{:?} in fill area {} but not in stroke area {}", escaped, fmt_rr(&fa), fmt_rr(&sa))
                     });
                 }
@@ -734,6 +773,10 @@ impl Module for M {
                 let fa = rr.offset(-(ins as i32));
                 let g = (out + 3) as i32;
                 let mut bad = None;
+                // mismatches of the known mechanism only: a point of the fill area outside the stroke area of a
+                // shape whose fill / stroke radii are rescaled by `confine` (see rrect.areas)
+                let confined = radii_confined(&sa) || radii_confined(&fa);
+                let mut bad_confined = None;
                 let mut inside_viol = None;
                 let mut outside_viol = None;
                 let mut painted = 0usize;
@@ -754,7 +797,11 @@ impl Module for M {
                             painted += 1;
                         }
                         if got != want {
-                            bad = Some((p, got, want));
+                            if confined && fa.contains(p) && !sa.contains(p) {
+                                bad_confined = Some((p, got, want));
+                            } else {
+                                bad = Some((p, got, want));
+                            }
                         }
                         // an inside stroke never paints outside the shape, an outside stroke never inside it
                         if a == 0 && got.is_some() && !rr.contains(p) {
@@ -766,6 +813,7 @@ impl Module for M {
                     }
                 }
                 ctx.expect(bad.is_none(), "C06:rrect-styled-map-ne-areas", || format!("{:?}", bad));
+                ctx.expect(bad_confined.is_none(), "C06:rrect-styled-map-ne-areas:confined-radii", || format!("{:?}", bad_confined));
                 ctx.expect(painted == r1.rec.map.len(), "C06:rrect-styled-paints-outside-stroke-area-box", || {
                     format!("{} painted in the probe box, {} in the map", painted, r1.rec.map.len())
                 });
